@@ -24,6 +24,8 @@ SHAPES = [
     ("e_dr", ["e", "dr"]), ("r_fr", ["r", "r"]),
     ("ab_r", ["b", "r"]), ("abv", ["bv"]), ("dyn_r", ["b", "r"]), ("rband_r", ["band", "r"]), ("rbor", ["bor"]),
     ("rbnot_r", ["bnot", "r"]),
+    ("ar6", ["r"] * 6), ("ar7", ["r"] * 7), ("ar9", ["r"] * 9), ("ar10", ["r"] * 10), ("ar11", ["r"] * 11),
+    ("ar12", ["r"] * 12), ("ar13", ["r"] * 13), ("ar14", ["r"] * 14), ("ar15", ["r"] * 15),
     ("res_fb_r", ["b", "r"]), ("res_rb_r", ["b", "r"]), ("res_reb_r", ["b", "r"]),
     ("res_fmcs_w", ["csm", "w"]), ("res_wcs_w", ["csm", "w"]), ("res_wecs_w", ["csm", "w"]),
     ("u_n", ["n"]), ("u_m", ["m"]), ("u_n_m", ["n", "m"]), ("u_mw", ["mw"]), ("u_bnot_m", ["bnot", "m"]), ("a3", ["w", "r", "r"]), ("a4", ["r", "w", "r", "m"]),
